@@ -410,6 +410,50 @@ fn main() {
         },
     );
 
+    // ------------------------------------------------------------ filters on captured text
+    // Every built-in filter as the first, second and only filter of a set block, of a set_global
+    // block and of a filter section, over bodies that are text (so the receiver is a string, which
+    // most collection and number filters refuse): Ok or Err, never a panic - the refusal of the
+    // FIRST filter of a set block is reported on the captured value. (Seeded change C07-14 emitted
+    // the instruction that closes the capture without a span.)
+    {
+        const FILTERS: [&str; 36] = [
+            "safe", "default(value=1)", "upper", "lower", "wordcount", "escape_html", "escape_xml", "newlines_to_br", "pluralize", "trim", "trim_start",
+            "trim_end", "replace(from=\"1\", to=\"2\")", "capitalize", "title", "truncate(length=1)", "indent", "str", "int", "float", "length", "reverse",
+            "split(pat=\".\")", "abs", "round", "first", "last", "nth(n=0)", "join(sep=\",\")", "sort", "unique", "get(key=\"a\")", "values", "keys", "pairs",
+            "group_by(attribute=\"a\")",
+        ];
+        const BODIES: [&str; 4] = ["1.5", "abc", "", "{{ v1 }}"];
+        run.family(
+            Family::new(
+                "filters-on-captured-text",
+                (FILTERS.len() * BODIES.len()) as u64,
+                &format!("{} built-in filters x {} bodies (a number as text, letters, nothing, a printed variable) as the only / first / second filter of `{{% set x | f %}}`, `{{% set_global x | f %}}` and `{{% filter f %}}`: totality", FILTERS.len(), BODIES.len()),
+            ),
+            |item, acc: &mut Acc| {
+                let f = FILTERS[item as usize / BODIES.len()];
+                let body = BODIES[item as usize % BODIES.len()];
+                let ctx = bind(&[V::I64(1), V::I64(2), V::I64(3)]);
+                let sources = [
+                    format!("{{% set x | {f} %}}{body}{{% endset %}}{{{{ x }}}}"),
+                    format!("{{% set x | {f} | str %}}{body}{{% endset %}}{{{{ x }}}}"),
+                    format!("{{% set x | trim | {f} %}}{body}{{% endset %}}{{{{ x }}}}"),
+                    format!("{{% for i in [1] %}}{{% set_global x | {f} %}}{body}{{% endset %}}{{% endfor %}}{{{{ x }}}}"),
+                    format!("{{% filter {f} %}}{body}{{% endfilter %}}"),
+                ];
+                for src in sources {
+                    let prog = Program { templates: vec![("t".into(), src.clone())], entry: "t".into(), blocks: vec![], components: vec![] };
+                    let mut t = Tera::default();
+                    if !engine::add_templates(&mut t, &prog.templates).is_ok() {
+                        acc.case(false, "refused-at-registration");
+                        continue;
+                    }
+                    totality(&t, &prog, &ctx, acc, "filters-on-captured-text", f.split('(').next().unwrap(), true, &|| json!({"template": src, "context": "v1 = 1"}));
+                }
+            },
+        );
+    }
+
     // ------------------------------------------------------------ chains
     for stack_mb in [8usize, 2] {
         let name = format!("chains-{stack_mb}MiB");
